@@ -154,6 +154,23 @@ func c13Oracle(in c13In) probe.Outcome {
 		return probe.Outcome{NonTrivial: true, Labels: labels}
 	}
 	if derr != nil {
+		// RFC 7296 3.14 wants the Encrypted payload to be the last one; the encodable domain of the property has no SK payload,
+		// so a decoder that REFUSES a chain continuing behind an SK payload is not held against it - silently dropping or
+		// accepting what follows is.
+		skAt := -1
+		for i, p := range in.Host.Payloads {
+			if p.Raw != nil && p.Raw.Type == 46 && skAt < 0 {
+				skAt = i
+			}
+		}
+		if skAt >= 0 && skAt < len(in.Host.Payloads)-1 {
+			return probe.OK(false, "refused:chain-continues-behind-sk")
+		}
+		for _, ins := range in.Inserts {
+			if skAt >= 0 && ins.Pos > skAt {
+				return probe.OK(false, "refused:chain-continues-behind-sk")
+			}
+		}
 		return probe.Fail("message with only non-critical unsupported payloads rejected: %v", derr)
 	}
 	if hdr != nil && *hdr != in.Host.Header {
